@@ -126,7 +126,7 @@ def expected(v):
             y = expected(x)
             if y[0] == 'err':
                 return y
-            out.append((k[2] if isinstance(k, tuple) else k, y))
+            out.append(((k[4] if k[1] == 'unit_variant' else k[2]) if isinstance(k, tuple) else k, y))
         t = ('tbl', sorted(out))
         return ('tbl', [(v[4], t)]) if kind == 'struct_variant' else t
     return ('?', kind)
@@ -178,7 +178,7 @@ def show(sample, depth=0):
     if k == 'struct':
         return ('Datetime(' + sample[3][0][1][2] + ')') if sample[2] == DT_NAME else 'S { ' + ', '.join(f + ': ' + show(x) for f, x in sample[3]) + ' }'
     if k == 'map':
-        return 'map{' + ', '.join(show(a) + ': ' + show(b) for a, b in sample[2]) + '}'
+        return 'map{' + ', '.join((show(a) if a[1] == 'str' else 'K::' + a[4]) + ': ' + show(b) for a, b in sample[2]) + '}'
     return k
 
 
@@ -190,6 +190,9 @@ def samples():
               sv('tuple_variant', 'E', 2, 'C', [i(3), sv('str', 'y')]), sv('tuple_variant', 'E', 2, 'C', [sv('none')]), sv('struct_variant', 'E', 3, 'D', [('a', i(1)), ('b', sv('none'))]),
               sv('struct', DT_NAME, [(DT_FIELD, sv('str', '1979-05-27T07:32:00Z'))]), sv('seq', []), sv('seq', [i(1), i(2)]), sv('tuple', [i(1), sv('str', 'a')]), sv('tuple_struct', 'T', [i(1), i(2)]),
               sv('map', [(sv('str', 'k'), i(1))]), sv('map', []), sv('struct', 'S', [('a', i(1)), ('b', sv('str', 'z'))]), sv('struct', 'S', [])]
+    st = lambda n: sv('struct', 'S', [('a', i(n))])
+    leaves += [sv('tuple_variant', 'E', 2, 'C', [st(1), st(2)]), sv('seq', [st(1), st(2)]), sv('map', [(sv('unit_variant', 'K', 0, 'A'), i(1)), (sv('unit_variant', 'K', 1, 'B'), i(2))]),
+               sv('newtype_struct', 'New', st(1)), sv('some', st(1)), sv('struct', 'S', [('t', sv('tuple', [st(1), i(2)]))]), sv('newtype_variant', 'E', 1, 'B', sv('seq', [st(1)]))]
     out = []
     for x in leaves:
         out.append(x)
@@ -251,3 +254,90 @@ def r_value_serializers(rep, facts, rid, routes=('edit', 'toml'), judge='oracle'
             a, b = res['edit'], res['toml']
             agree = (a[0] == 'err' and b[0] == 'err') or (a[0] != 'err' and b[0] != 'err' and same(a, b if b[0] != 'datetime' else a))
             rep.check(R, f'agree|{label}', agree, f'{a}'[:80], f'`{label}`: the text route gives {a}, Value::try_from gives {b} — the two encoding routes disagree')
+
+
+def to_standard(v):
+    """the same tree in the standard spelling: tables as [table], arrays of tables as [[table]] (what the document formatters make of a serialized value)"""
+    I = 'toml_edit::item::Item::'
+    V = 'toml_edit::value::Value::'
+    v = deref(v)
+    is_val = lambda x, kind: isinstance(x, tuple) and len(x) == 3 and x[0] == 'ctor' and x[1] == V + kind
+    none_ = ('ctor', 'core::option::Option::None')
+
+    def table_of(inl):
+        st = deref(inl)[2]
+        kids = [(k, item_of(x)) for k, x in (st['items'].pairs if isinstance(st['items'], MapObj) else st['items'])]
+        return ('struct', 'toml_edit::table::Table', {'items': MapObj(kids), 'decor': st.get('decor'), 'implicit': False, 'dotted': False, 'doc_position': none_, 'span': none_})
+
+    def item_of(item):
+        item = deref(item)
+        if isinstance(item, tuple) and len(item) == 3 and item[1] == I + 'Value':
+            val = deref(item[2][0])
+            if is_val(val, 'InlineTable'):
+                return ('ctor', I + 'Table', (table_of(val[2][0]),))
+            if is_val(val, 'Array'):
+                xs = deref(val[2][0])[2]['values']
+                xs = xs.items if isinstance(xs, VecObj) else list(xs)
+                inner = [deref(deref(x)[2][0]) if isinstance(deref(x), tuple) and deref(x)[1] == I + 'Value' else None for x in xs]
+                if xs and all(i is not None and is_val(i, 'InlineTable') for i in inner):
+                    return ('ctor', I + 'ArrayOfTables', (('struct', 'toml_edit::array_of_tables::ArrayOfTables', {'values': VecObj([('ctor', I + 'Table', (table_of(i[2][0]),)) for i in inner]), 'span': none_}),))
+        return item
+    return item_of(('ctor', I + 'Value', (v,)))
+
+
+def r_round_trip(rep, facts, rid, routes=('edit', 'toml')):
+    from .dedrive import DeInterp, type_of_sample, value_of_sample
+    S = [s for s in samples() if expected(s)[0] != 'err']
+    R = rep.rule(rid, f'what is written reads back as the value it was: {len(S)} sample values of every shape of the serde data model are serialized by the evaluated value serializer and the '
+                 'resulting tree is handed to the evaluated deserializer of the same route with the value\'s own type as the target (toml_edit: in the inline spelling and with tables / '
+                 'arrays of tables promoted to [table] / [[table]] as the document formatters do; toml::Value: Value::try_from then try_into) — the decoded value equals the original '
+                 '(a map entry whose value is None is omitted by design and stays omitted)', floor=400)
+    I = 'toml_edit::item::Item::'
+    canon = lambda x: 'nan' if isinstance(x, float) and math.isnan(x) else tuple(canon(y) for y in x) if isinstance(x, (tuple, list)) else x
+    have = {'edit': any(i.get('trait') == 'serde::ser::Serializer' and i.get('self_ty') == EDIT_SER for i in facts.impls) and facts.has_body("<toml_edit::de::value::ValueDeserializer as serde::de::Deserializer<'de>>::deserialize_any"),
+            'toml': any(i.get('trait') == 'serde::ser::Serializer' and i.get('self_ty') == TOML_SER for i in facts.impls) and facts.has_body("<toml::value::Value as serde::de::Deserializer<'de>>::deserialize_any")}
+
+    def drop_none_entries(v):
+        if isinstance(v, tuple) and v[:1] == ('map',):
+            return ('map', [(k, drop_none_entries(x)) for k, x in v[1] if x != ('none',)])
+        if isinstance(v, tuple):
+            return tuple(drop_none_entries(x) for x in v)
+        if isinstance(v, list):
+            return [drop_none_entries(x) for x in v]
+        return v
+    for s in S:
+        label = show(s)
+        want = canon(drop_none_entries(value_of_sample(s)))
+        t = type_of_sample(s)
+        for route in routes:
+            if not have[route]:
+                continue
+            variants = ('inline', 'standard') if route == 'edit' else ('value',)
+            for variant in variants:
+                key = f'{route}-{variant}|{label}'
+                it = DeInterp(Evaluator(facts))
+                try:
+                    r = it.drive(s, ('struct', EDIT_SER, {}) if route == 'edit' else ('ctor', TOML_SER))
+                    if not is_ok(r):
+                        rep.bad(R, key, f'`{label}` is refused by the {route} serializer ({outcome(r)}) although the TOML mapping has a form for it')
+                        continue
+                    val = r[2][0]
+                    if route == 'edit':
+                        item = ('ctor', I + 'Value', (val,)) if variant == 'inline' else to_standard(val)
+                        de = ('struct', 'toml_edit::de::value::ValueDeserializer', {'input': item, 'validate_struct_keys': False})
+                    else:
+                        de = val
+                    back = it.deserialize(t, de)
+                except EvalPanic as ex:
+                    rep.bad(R, key, f'writing and reading back `{label}` ({route}, {variant}) panics: {ex}')
+                    continue
+                except (Unanalysable, TypeError, IndexError, KeyError, AttributeError) as ex:
+                    rep.incomplete(R, key, f'cannot evaluate the round trip of `{label}` ({route}, {variant}): {type(ex).__name__}: {ex}')
+                    continue
+                if is_ok(back):
+                    got = canon(drop_none_entries(plain(back[2][0])))
+                    rep.check(R, key, got == want, 'reads back',
+                              f'`{label}` written by the {route} serializer reads back ({variant} spelling) as {str(got)[:200]}, the original is {str(want)[:200]}: the round trip changes the value')
+                else:
+                    e = deref(back[2][0])
+                    rep.bad(R, key, f'`{label}` written by the {route} serializer cannot be read back ({variant} spelling): {str(plain(e))[:220]}')
